@@ -20,6 +20,9 @@ fn more_values() -> Vec<Value> {
         Value::float(9007199254740994.0),
         Value::float(-0.0),
         Value::float(1e300),
+        Value::float(1e-300),
+        Value::float(5e-17),
+        Value::float(f64::MIN_POSITIVE),
         Value::text("0"),
         Value::text("false"),
         Value::text("1.0"),
@@ -49,6 +52,8 @@ fn more_types() -> Vec<DataType> {
         DataType::float_values([0.5, 7.25]),
         DataType::float_values([9007199254740992.0, 9007199254740994.0]),
         DataType::float_values([-0.0, 0.0]),
+        DataType::float_values([0.0, 1e-300]),
+        DataType::float_values([5e-17, 1.0]),
         DataType::float_interval(0.25, 0.75),
         DataType::text_values([s("0"), s("1"), s("01"), s("1.0"), s("1e0"), s(" 1")]),
         DataType::text_values([s("true"), s("false")]),
